@@ -86,6 +86,15 @@ CLAIMED["C13"] = (
     "for all chunk-local codes, pointer tables, values, masks within N<=4,G<=2, 2 chunks (quick) / N<=5, <=3 chunks, length-3 sequences (thorough)",
     "cuts as in C07; caches holding pandas objects and the class-level call form are outside", "DESIGN.md 4 C13")
 
+CLAIMED["C02"] = (
+    "library-owned factorization logic, solver-decided: (a) the real factorize_2d/_combine_factorizations/_weight_code_sum (weights from the real "
+    "cumprod arithmetic) give the null code iff some key is null (any key position), equal codes iff equal key tuples, label-at-code = key tuple, "
+    "distinct labels, for all per-key codes; (b) _monotonic_factorization over every chunk layout: on the returned prefix label[code]=key, labels "
+    "strictly increasing, no null key labelled; (c) the group-sorted indexer (contiguous/chunked codes, every label order) lists exactly the non-null "
+    "rows group by group in ascending position and sizes equal count_ikey; (e) factorize_range_index gives code i to row i; N<=4 (quick), N<=6 (thorough)",
+    "pandas/pyarrow 1-D factorizers and drop_duplicates/get_indexer assumed by contract (factorize_1d stubbed); chunk-local codes/pointer tables under C13/C03",
+    "DESIGN.md 4 C02")
+
 NOT_APPLICABLE = {
     "C11": "labelling/order/shape are decided entirely by pandas Index/MultiIndex/DataFrame operations (C extension semantics); nothing symbolic to quantify over within reach of the encoder (DESIGN.md 5)",
     "C14": "margins and crosstab are reindex/groupby(level)/concat/unstack on pandas objects; not encodable (DESIGN.md 5)",
